@@ -597,6 +597,10 @@ func blockAccepts(c px.Context, bt *btype, blk *blockSpec, cache map[string]px.T
 	} else if blk.max != nil {
 		return false
 	}
+	if kmax < *bt.min {
+		// a minimum beyond both lists (Callable[T, 3, default]): the smallest call the declaration allows must still be looked at
+		kmax = *bt.min
+	}
 	for k := *bt.min; k <= kmax; k++ {
 		if k < blk.min || (blk.max != nil && k > *blk.max) {
 			return false
